@@ -1,5 +1,5 @@
 ----------------------------- MODULE TimeArgMC -----------------------------
-(* Exhaustive exploration: every relative specification over {absent,0,1,7,45}^3 in  *)
+(* Exhaustive exploration: every relative specification over {absent,0,1,8,45}^3 in  *)
 (* both spellings and paddings, every pair of range bounds with both range functions, *)
 (* and the dispatch rule over every accept relation of three abstract layouts and two *)
 (* instants for three abstract texts.  One step from Init covers all (steps are       *)
